@@ -91,14 +91,22 @@ def run(tier, seed):
     o.assumptions = ['answers are compared with the one definitional value on exact carriers, so agreement between configurations follows; "within floating-point tolerance" is the projection tolerance of each carrier',
                      'interpreter levels: python, python -O, python -OO (separate worker processes); bin/sum_product.py is run as shipped (-OO)']
     rng = rng_for(seed, 'c11')
-    nn, nf, ncli = (30, 14, 4) if tier == 'quick' else (400, 150, 40)
+    nn, nf, ncli, nclean = (30, 15, 4, 16) if tier == 'quick' else (400, 150, 40, 200)
     jobs = []
     for i in range(nn):
         a = AG.gen_ag(rng, n_nts=(1, 3), max_rules=2, max_nodes=3, max_edges=3, recursion='none', weights='small', p_zero=0.12,
                       dom_sizes=(1, 2), start_arity=(0, 0, 1), value_cap=3000, p_norules=0.08)
         jobs.append({'ag': a, 'idx': i, 'tier': tier, 'mode': 'nat'})
+    # grammars outside the recorded j_precompute findings, biased towards unit rules whose single edge has
+    # internal nodes / a permuted attachment: here EVERY disagreement of a j_precompute run is a violation
+    for i in range(nn, nn + nclean):
+        a = AG.gen_ag_j_clean(rng)
+        jobs.append({'ag': a, 'idx': i, 'tier': tier, 'mode': 'nat'})
+    nn += nclean
     for i in range(nf):
-        a = AG.gen_fx_recursive(rng, linear=(i % 2 == 0), max_q=0.85)
+        # every third grid grammar has a binary nonterminal whose base rule is a diagonal PatternedTensor: the
+        # fixed-point iterates then change their sparsity pattern while newton / linear do not care
+        a = AG.gen_fx_recursive(rng, linear=(i % 2 == 0), max_q=0.85, patterned=(i % 3 == 1))
         jobs.append({'ag': a, 'idx': nn + i, 'tier': tier, 'mode': 'fx'})
     with Scratch() as work:
         res = run_workers(work, jobs, o)
